@@ -20,6 +20,23 @@ type gateEval struct {
 	env  map[string]gpoly
 	fail string
 	tmp  int
+	// known: construction-time value of a wire name (0, 1); absent = not known
+	known    map[string]int
+	returned bool
+	alias    map[string]string
+}
+
+// name resolves local aliases of wire names (a := lhs).
+func (g *gateEval) name(e ast.Expr) string {
+	k := baseName(e)
+	for i := 0; i < 8; i++ {
+		n, ok := g.alias[k]
+		if !ok {
+			break
+		}
+		k = n
+	}
+	return k
 }
 
 func (g *gateEval) bad(f string, a ...any) {
@@ -39,7 +56,7 @@ func (g *gateEval) wire(e ast.Expr) gpoly {
 			return gone()
 		}
 	}
-	k := baseName(e)
+	k := g.name(e)
 	if v, ok := g.env[k]; ok {
 		return v
 	}
@@ -49,13 +66,59 @@ func (g *gateEval) wire(e ast.Expr) gpoly {
 
 func (g *gateEval) stmts(list []ast.Stmt) {
 	for _, s := range list {
-		if g.fail != "" {
+		if g.fail != "" || g.returned {
 			return
 		}
 		if isQuiet(g.pkg.TypesInfo, s) {
 			continue
 		}
 		switch x := s.(type) {
+		case *ast.ReturnStmt:
+			if len(x.Results) == 0 {
+				g.returned = true
+				continue
+			}
+			g.bad("return of a value is not part of a gate helper")
+		case *ast.SwitchStmt:
+			// a tagless switch on construction-time wire values (fast paths for constant operands)
+			if x.Tag != nil || x.Init != nil {
+				g.bad("switch statement is not part of a bit-parallel body")
+				continue
+			}
+			var chosen, deflt *ast.CaseClause
+			for _, st := range x.Body.List {
+				cc := st.(*ast.CaseClause)
+				if cc.List == nil {
+					deflt = cc
+					continue
+				}
+				if chosen != nil {
+					continue
+				}
+				for _, c := range cc.List {
+					v, ok := g.cond(c)
+					if !ok {
+						g.bad("condition %s is not a test of construction-time wire values", types.ExprString(c))
+						break
+					}
+					if v {
+						chosen = cc
+						break
+					}
+				}
+				if g.fail != "" {
+					break
+				}
+			}
+			if g.fail != "" {
+				continue
+			}
+			if chosen == nil {
+				chosen = deflt
+			}
+			if chosen != nil {
+				g.stmts(chosen.Body)
+			}
 		case *ast.AssignStmt:
 			if len(x.Lhs) == 1 && len(x.Rhs) == 1 {
 				if c, ok := x.Rhs[0].(*ast.CallExpr); ok {
@@ -65,11 +128,51 @@ func (g *gateEval) stmts(list []ast.Stmt) {
 					}
 				}
 			}
+			// local names for wires: a, b := lhs, rhs
+			if len(x.Lhs) == len(x.Rhs) {
+				all := true
+				for i := range x.Lhs {
+					l, ok1 := x.Lhs[i].(*ast.Ident)
+					r, ok2 := ast.Unparen(x.Rhs[i]).(*ast.Ident)
+					if !ok1 || !ok2 || !g.isWire(r) {
+						all = false
+					}
+					_ = l
+				}
+				if all {
+					if g.alias == nil {
+						g.alias = map[string]string{}
+					}
+					names := make([]string, len(x.Rhs))
+					for i := range x.Rhs {
+						names[i] = g.name(x.Rhs[i])
+					}
+					for i := range x.Lhs {
+						if l := x.Lhs[i].(*ast.Ident); l.Name != "_" {
+							g.alias[l.Name] = names[i]
+						}
+					}
+					continue
+				}
+			}
 			g.bad("assignment %s is not part of the bit-parallel body", types.ExprString(x.Lhs[0]))
 		case *ast.IfStmt:
 			// optional outputs: `if cout != nil { ... }` — the cell is checked with every output requested
 			if be, ok := x.Cond.(*ast.BinaryExpr); ok && types.ExprString(be.Y) == "nil" && be.Op.String() == "!=" && x.Else == nil {
 				g.stmts(x.Body.List)
+				continue
+			}
+			if v, ok := g.cond(x.Cond); ok && x.Init == nil {
+				if v {
+					g.stmts(x.Body.List)
+				} else if x.Else != nil {
+					switch e := x.Else.(type) {
+					case *ast.BlockStmt:
+						g.stmts(e.List)
+					case *ast.IfStmt:
+						g.stmts([]ast.Stmt{e})
+					}
+				}
 				continue
 			}
 			g.bad("branch on %s is not part of a straight-line cell", types.ExprString(x.Cond))
@@ -84,6 +187,88 @@ func (g *gateEval) stmts(list []ast.Stmt) {
 			g.bad("statement %T is not part of a bit-parallel body", s)
 		}
 	}
+}
+
+// isWire: the identifier has type *circuits.Wire.
+func (g *gateEval) isWire(id *ast.Ident) bool {
+	o := g.pkg.TypesInfo.ObjectOf(id)
+	if o == nil {
+		return false
+	}
+	pt, ok := o.Type().(*types.Pointer)
+	if !ok {
+		return false
+	}
+	n, ok := pt.Elem().(*types.Named)
+	return ok && n.Obj().Name() == "Wire" && n.Obj().Pkg() != nil && n.Obj().Pkg().Path() == load.Module+"/compiler/circuits"
+}
+
+// cond evaluates a test of construction-time wire values: W.Value() ==/!= Zero|One|Unknown
+// over the wires whose constness this evaluation fixes, combined with &&, || and !.
+func (g *gateEval) cond(e ast.Expr) (bool, bool) {
+	e = ast.Unparen(e)
+	switch t := e.(type) {
+	case *ast.UnaryExpr:
+		if t.Op.String() == "!" {
+			v, ok := g.cond(t.X)
+			return !v, ok
+		}
+	case *ast.BinaryExpr:
+		switch t.Op.String() {
+		case "&&":
+			a, ok1 := g.cond(t.X)
+			b, ok2 := g.cond(t.Y)
+			return a && b, ok1 && ok2
+		case "||":
+			a, ok1 := g.cond(t.X)
+			b, ok2 := g.cond(t.Y)
+			return a || b, ok1 && ok2
+		case "==", "!=":
+			x, y := t.X, t.Y
+			if _, isCall := ast.Unparen(x).(*ast.CallExpr); !isCall {
+				x, y = y, x
+			}
+			c, ok := ast.Unparen(x).(*ast.CallExpr)
+			if !ok || len(c.Args) != 0 || g.known == nil {
+				return false, false
+			}
+			sel, ok := c.Fun.(*ast.SelectorExpr)
+			if !ok || sel.Sel.Name != "Value" {
+				return false, false
+			}
+			fn, _ := g.pkg.TypesInfo.Uses[sel.Sel].(*types.Func)
+			if fn == nil || fn.Pkg() == nil || fn.Pkg().Path() != load.Module+"/compiler/circuits" {
+				return false, false
+			}
+			w, ok := ast.Unparen(sel.X).(*ast.Ident)
+			if !ok {
+				return false, false
+			}
+			wn := g.name(w)
+			if _, bound := g.env[wn]; !bound {
+				return false, false
+			}
+			tv, ok := g.pkg.TypesInfo.Types[y]
+			if !ok || tv.Value == nil {
+				return false, false
+			}
+			// the WireValue constant this wire carries at construction time
+			cname := "Unknown"
+			if k, isKnown := g.known[wn]; isKnown {
+				cname = []string{"Zero", "One"}[k]
+			}
+			co, _ := fn.Pkg().Scope().Lookup(cname).(*types.Const)
+			if co == nil {
+				return false, false
+			}
+			eq := tv.Value.ExactString() == co.Val().ExactString()
+			if t.Op.String() == "!=" {
+				eq = !eq
+			}
+			return eq, true
+		}
+	}
+	return false, false
 }
 
 func (g *gateEval) call(c *ast.CallExpr) {
@@ -118,7 +303,7 @@ func (g *gateEval) call(c *ast.CallExpr) {
 			g.bad("gate operation %s", op)
 			return
 		}
-		out := baseName(gate.Args[3])
+		out := g.name(gate.Args[3])
 		if _, driven := g.env[out]; driven && !strings.HasPrefix(out, "in:") {
 			g.bad("wire %s is driven twice", out)
 			return
@@ -140,16 +325,25 @@ func (g *gateEval) call(c *ast.CallExpr) {
 			return
 		}
 		g.tmp++
-		sub := &gateEval{p: g.p, pkg: g.pkg, env: map[string]gpoly{}, tmp: g.tmp}
+		sub := &gateEval{p: g.p, pkg: g.pkg, env: map[string]gpoly{}, tmp: g.tmp, known: map[string]int{}}
 		var outs [][2]string
 		i := 0
 		for _, f := range fd.Type.Params.List {
 			for _, n := range f.Names {
 				if i < len(c.Args) {
-					if v, ok := g.env[baseName(c.Args[i])]; ok {
+					if v, ok := g.env[g.name(c.Args[i])]; ok {
 						sub.env[n.Name] = v
+						if k, isKnown := g.known[g.name(c.Args[i])]; isKnown {
+							sub.known[n.Name] = k
+						}
+					} else if k, isConst := constWireCall(c.Args[i]); isConst {
+						sub.env[n.Name] = gpoly{}
+						if k == 1 {
+							sub.env[n.Name] = gone()
+						}
+						sub.known[n.Name] = k
 					} else {
-						outs = append(outs, [2]string{n.Name, baseName(c.Args[i])})
+						outs = append(outs, [2]string{n.Name, g.name(c.Args[i])})
 					}
 				}
 				i++
@@ -166,6 +360,101 @@ func (g *gateEval) call(c *ast.CallExpr) {
 			}
 		}
 	}
+}
+
+// constWireCall: cc.ZeroWire() / cc.OneWire() as an argument.
+func constWireCall(e ast.Expr) (int, bool) {
+	if c, ok := ast.Unparen(e).(*ast.CallExpr); ok {
+		switch _, name, _ := callName(c); name {
+		case "ZeroWire":
+			return 0, true
+		case "OneWire":
+			return 1, true
+		}
+	}
+	return 0, false
+}
+
+// GateHelpers: the compiler's one-gate helpers compute their operator for every
+// combination of construction-time operand values (a variable wire, the zero wire,
+// the one wire): fast paths for constant operands are checked arm by arm.
+func GateHelpers(p *load.Program, run *report.Run) {
+	run.Rule("gate-helpers", "Compiler.INV, Compiler.OR and Compiler.ID, interpreted as GF(2) polynomials for every combination of operands being a variable wire, the constant-zero wire or the constant-one wire (tests of Wire.Value() decided per combination), compute not i, a or b and i")
+	pkg := p.ByPath[load.Module+"/compiler/circuits"]
+	a, b := gvar("a"), gvar("b")
+	or := func(x, y gpoly) gpoly { return x.xor(y).xor(x.and(y)) }
+	specs := []struct {
+		name string
+		ins  int
+		want func(in []gpoly) gpoly
+	}{
+		{"INV", 1, func(in []gpoly) gpoly { return in[0].xor(gone()) }},
+		{"ID", 1, func(in []gpoly) gpoly { return in[0] }},
+		{"OR", 2, func(in []gpoly) gpoly { return or(in[0], in[1]) }},
+	}
+	for _, sp := range specs {
+		key := "compiler/circuits.Compiler." + sp.name
+		_, fd := dispatch.FindFunc(p, "compiler/circuits", "Compiler", sp.name)
+		if fd == nil || pkg == nil {
+			run.Undecided("gate-helpers", key, "", "function not found")
+			continue
+		}
+		var params []string
+		for _, f := range fd.Type.Params.List {
+			for _, n := range f.Names {
+				params = append(params, n.Name)
+			}
+		}
+		if len(params) != sp.ins+1 {
+			run.Undecided("gate-helpers", key, p.Rel(fd.Pos()), fmt.Sprintf("%d wire parameters, the specification has %d", len(params), sp.ins+1))
+			continue
+		}
+		vars := []gpoly{a, b}
+		combos := 1
+		for i := 0; i < sp.ins; i++ {
+			combos *= 3
+		}
+		bad := ""
+		for c := 0; c < combos && bad == ""; c++ {
+			g := &gateEval{p: p, pkg: pkg, env: map[string]gpoly{}, known: map[string]int{}}
+			in := make([]gpoly, sp.ins)
+			desc := ""
+			for i, cc := 0, c; i < sp.ins; i, cc = i+1, cc/3 {
+				switch cc % 3 {
+				case 0:
+					in[i] = vars[i]
+					desc += params[i] + " variable "
+				case 1:
+					in[i] = gpoly{}
+					g.known[params[i]] = 0
+					desc += params[i] + "=0 "
+				case 2:
+					in[i] = gone()
+					g.known[params[i]] = 1
+					desc += params[i] + "=1 "
+				}
+				g.env[params[i]] = in[i]
+			}
+			run.Count("gate-helper-cases", 1)
+			g.stmts(fd.Body.List)
+			got, driven := g.env[params[sp.ins]]
+			want := sp.want(in)
+			switch {
+			case g.fail != "":
+				bad = desc + ": " + g.fail
+			case !driven:
+				bad = desc + ": the output wire is never driven"
+			case got.String() != want.String():
+				bad = fmt.Sprintf("%s: output = %s, the operator gives %s", strings.TrimSpace(desc), got, want)
+			}
+		}
+		if bad != "" {
+			run.Violate("gate-helpers", key, p.Rel(fd.Pos()), bad, nil)
+		} else {
+			run.OK("gate-helpers", key, p.Rel(fd.Pos()), fmt.Sprintf("%d operand-constness combinations", combos))
+		}
+	}
+	run.Floor("gate-helper-cases", 15)
 }
 
 // C07bitwise: the bit-parallel builders compute their operator on every bit.
